@@ -23,7 +23,6 @@ import (
 	"fmt"
 	"io"
 	"log/slog"
-	"os"
 	"sort"
 	"strings"
 	"sync"
@@ -191,7 +190,9 @@ func (e *c19Env) newWorld(ttl2 bool) (*c19World, error) {
 		return nil, fmt.Errorf("%w: NewEtcdStore: %v", errC19Inconclusive, err)
 	}
 	w.store = store
-	w.h = vfNewHandler(store, w.obj, vfHandlerOpts{ReadAhead: -1})
+	// the mid-request hook waits (real time) inside an S3 upload; that is harness time, not S3
+	// latency, and must not flip the S3 health monitor (C25's subject) to "degraded"
+	w.h = vfNewHandler(store, w.obj, vfHandlerOpts{ReadAhead: -1, NoS3Backpressure: true})
 	if w.h.leaseManager == nil {
 		_ = store.Close()
 		return nil, fmt.Errorf("newHandler did not create a partition lease manager over an EtcdStore")
@@ -586,16 +587,7 @@ func TestVF_C19_Witness(t *testing.T) {
 	defer w.close()
 	// both partitions free; the session expires (and a foreign broker takes over) while the
 	// first partition's segment is being uploaded; the handler goes on to the second one.
-	w.h.logger = slog.New(slog.NewTextHandler(os.Stdout, &slog.HandlerOptions{Level: slog.LevelDebug}))
-	w.h.store = &c19DbgStore{w.store}
-	w.h.traceKafka = true
-	res, v, err := w.produce([]c19Part{{"t1", 0}, {"t1", 1}}, -1, true, true)
-	fmt.Printf("DEBUG res=%+v v=%q err=%v uploads=%+v trace=%v avail=%v\n", res, v, err, w.uploads, w.trace, w.h.etcdAvailable())
-	for _, op := range w.obj.Ops {
-		fmt.Printf("DEBUG op %+v\n", op)
-	}
-	vals, _, _ := w.leaseKeys()
-	fmt.Printf("DEBUG keys %v owns0=%v owns1=%v\n", vals, w.h.leaseManager.Owns("t1", 0), w.h.leaseManager.Owns("t1", 1))
+	_, v, err := w.produce([]c19Part{{"t1", 0}, {"t1", 1}}, -1, true, true)
 	if err != nil {
 		fmt.Println("VF-INCONCLUSIVE:", err)
 		t.Fatalf("inconclusive: %v", err)
@@ -607,17 +599,4 @@ func TestVF_C19_Witness(t *testing.T) {
 		st.Sample(map[string]any{"violation": v})
 	}
 	st.KnownResult(c19Finding, v != "", what)
-}
-
-type c19DbgStore struct{ *metadata.EtcdStore }
-
-func (d *c19DbgStore) UpdateOffsets(ctx context.Context, topic string, partition int32, lastOffset int64) error {
-	err := d.EtcdStore.UpdateOffsets(ctx, topic, partition, lastOffset)
-	fmt.Printf("DEBUG UpdateOffsets %s/%d %d -> %v avail=%v\n", topic, partition, lastOffset, err, d.Available())
-	return err
-}
-func (d *c19DbgStore) NextOffset(ctx context.Context, topic string, partition int32) (int64, error) {
-	n, err := d.EtcdStore.NextOffset(ctx, topic, partition)
-	fmt.Printf("DEBUG NextOffset %s/%d -> %d %v avail=%v\n", topic, partition, n, err, d.Available())
-	return n, err
 }
